@@ -281,7 +281,10 @@ CFG = {
              "(half of them with a JS return() method whose body itself runs for-of loops / try-finally / generators / probe(), "
              "often two iteration regions nested and left by one throw), "
              "block scopes, reference assignments, getters, generators, async functions, promise jobs and native functions "
-             "calling back (Callable, accessor Get, re-entrant RunString, Try, ForOf), call-depth limit none or 0..64, up to "
+             "calling back (Callable, accessor Get, re-entrant RunString, Try, ForOf), plus (22% of the histories) a scripted "
+             "scenario with a specification-level expectation (a generator suspended at a yield inside for-of inside try, closed "
+             "from a LATER call by return()/throw() while iterator.return() throws / interrupts / overflows; an async function "
+             "awaiting another whose continuation fails), call-depth limit none or 0..64, up to "
              "2 faults (JS throw, GoError, foreign Go panic, Interrupt, deep recursion) at the k-th probe(); after EACH call "
              "VerifIdle, the register vector at every probe(), the effect log and the result class are compared with the "
              "model; non-trivial = some call ended abruptly; distinct = by hash of the case"),
@@ -299,7 +302,8 @@ CFG = {
     ],
     "assumptions": [
         "values, pc and privEnv are not modelled; programs are the generated fragment (no break/continue/return across "
-        "finally, no yield inside try, generators resumed once)",
+        "finally, no yield inside try, generators resumed once); the scripted scenarios (AScen) are modelled by their "
+        "specification only (result, effects, idle registers; validated against node), not by the algorithm",
         "a native function always re-panics an uncatchable error returned to it by Callable/RunString",
         "the implementation is tied to the model only on the generated histories (correspondence), not by proof",
     ],
